@@ -185,6 +185,13 @@ func Run(p *ir.Program, id, tier, outDir, knownPath string, t0 time.Time) int {
 	if err != nil {
 		c.Undecided("known findings file unreadable: %v", err)
 	}
+	// thorough tier: results of the both-ways test on the kept seeded changes
+	selftest := SelfTests[id]
+	for _, st := range selftest {
+		if st.Outcome == "NOT-DETECTED" {
+			c.Undecided("self-test: the seeded change %s is recorded as detected but the rules no longer report it (%s) — the check has become weaker", st.Seed, st.Detail)
+		}
+	}
 	// apply known findings: exact key match, status "known" only
 	nviol := 0
 	var knownLines, violLines []string
@@ -264,6 +271,12 @@ func Run(p *ir.Program, id, tier, outDir, knownPath string, t0 time.Time) int {
 		"all_obligations":     c.Obls,
 		"undecided":           c.Undec,
 		"exhaustive":          true,
+	}
+	if tier == "thorough" {
+		cov["seeded_change_selftest"] = map[string]any{
+			"what":    "each kept seeded change recorded as detected is applied to a scratch copy of the current tree and the same rules are run on the copy (source only); it must be reported there. A miss makes this run UNDECIDED, never a violation.",
+			"results": selftest,
+		}
 	}
 	ev := map[string]any{
 		"property_id": id,
